@@ -4188,6 +4188,11 @@ fn generate_constraints_pat(ctx: &mut StaticsContext, mode: Mode, pat: &Rc<Pat>)
         PatKind::Or(left, right) => {
             generate_constraints_pat(ctx, mode.clone(), left);
             generate_constraints_pat(ctx, mode.clone(), right);
+            // the or-pattern has the type of its alternatives, also when nothing is expected
+            let ty_left = TypeVar::from_node(ctx, left.node());
+            let ty_right = TypeVar::from_node(ctx, right.node());
+            constrain(ctx, &ty_pat, &ty_left);
+            constrain(ctx, &ty_pat, &ty_right);
         }
     }
     let ty_pat = TypeVar::from_node(ctx, pat.node());
